@@ -133,6 +133,10 @@ __CPROVER_requires(VP_AIOQS_PRE && VP_AIO_NOT_QUEUED(&g_pp->aio_recv))
 /* ghost equations: ORACLE value of the arriving body under EACH context's own topics */
 __CPROVER_requires(g_m0 == vp_sub_oracle(g_nt, g_t0, g_t1, g_t2, SB_M->m_body.ch_ptr, SB_M->m_body.ch_len))
 __CPROVER_requires(g_m1 == vp_sub_oracle(g_nu, g_u0, g_u1, g_u2, SB_M->m_body.ch_ptr, SB_M->m_body.ch_len))
+#ifdef SUB_CASE
+/* case split of this contract (one unit per case, cases disjoint and exhaustive): which contexts match */
+__CPROVER_requires(g_m0 == ((SUB_CASE & 1) != 0) && g_m1 == ((SUB_CASE & 2) != 0))
+#endif
 __CPROVER_assigns(g_pp->aio_recv.a_msg, *SB_M, VP_PROTO_GHOST_LIST, VP_SYNC_GHOSTS, g_free_calls, g_alloc_ok, g_alloc_fail, g_cl, g_cl_ran,
     __CPROVER_object_whole(g_cl_fin_aio), __CPROVER_object_whole(g_cl_fin_msg), __CPROVER_object_whole(g_cl_fin_rv), __CPROVER_object_whole(g_cl_fin_count))
 SB_CTX_ASSIGNS(SB_C0, g_qa)
@@ -179,6 +183,80 @@ __CPROVER_ensures(OLD(SR_C->lmq.lmq_len) > 0 ==> (g_start_calls == OLD(g_start_c
 __CPROVER_ensures((OLD(SR_C->lmq.lmq_len) > 0 && g_j < SR_C->lmq.lmq_len && g_j < LMQ_MAXALLOC) ==> LMQ_VIEW(&SR_C->lmq, g_j) == OLD(LMQ_VIEW(&SR_C->lmq, g_j + 1)))
 /* C15: the receive descriptor mirrors the master queue */
 __CPROVER_ensures(SUB_IS_C0(SR_C) ? SUB_POLL_INV : g_pollr == OLD(g_pollr))
+;
+
+/* ---- C05/C15: unsubscribe -------------------------------------------------
+ * removes the first topic equal to buf[0..sz) (NNG_ENOENT and no change if there
+ * is none); afterwards the queue is the ORDER-PRESERVING FILTER of the old queue
+ * by the remaining topics, every message that no longer matches is released
+ * exactly once, and the poll flag of the socket mirrors "queue non-empty". */
+#ifndef SU_MAXQ
+#define SU_MAXQ SUB_QSLOTS
+#endif
+size_t g_r;                          /* ghost: index of the topic that goes (3 = none) */
+bool   g_keep0, g_keep1, g_keep2, g_keep3; /* ghost: old queue entry i still matches afterwards */
+#define SU_C   (&g_s->master)
+#define SU_Q   (&SU_C->lmq)
+#define SU_V(i) LMQ_VIEW(SU_Q, (i))
+#define SU_OLDLEN OLD(SU_Q->lmq_len)
+#define SU_KEEP(i) ((i) == 0 ? g_keep0 : (i) == 1 ? g_keep1 : (i) == 2 ? g_keep2 : g_keep3)
+/* number of kept entries among the first j old entries */
+#define SU_RANK(j) ((size_t) (((j) > 0 && g_keep0) ? 1 : 0) + (((j) > 1 && g_keep1) ? 1 : 0) + (((j) > 2 && g_keep2) ? 1 : 0) + (((j) > 3 && g_keep3) ? 1 : 0))
+#define SU_MSG_PRE(i) (SU_Q->lmq_len <= (i) || (SUB_QUEUED_MSG16(SU_V(i)) && SU_KEEP(i) == vp_sub_oracle_skip(g_nt, g_t0, g_t1, g_t2, g_r, SU_V(i)->m_body.ch_ptr, SU_V(i)->m_body.ch_len)))
+#define SU_MSG_ASSIGNS(i) __CPROVER_assigns(*SU_V(i)) __CPROVER_frees(SU_V(i), SU_V(i)->m_body.ch_buf)
+/* old entry i: kept in order, or released exactly once */
+#define SU_MSG_POST(i)                                                                                  \
+	(SU_OLDLEN <= (i) || (SU_KEEP(i) ? (SU_V(SU_RANK(i)) == OLD(SU_V(i)) && !__CPROVER_was_freed(OLD(SU_V(i))) && OLD(SU_V(i))->m_refcnt.v == OLD(SU_V(i)->m_refcnt.v)) \
+	                                 : (OLD(SU_V(i)->m_refcnt.v) == 1 ? __CPROVER_was_freed(OLD(SU_V(i))) : (!__CPROVER_was_freed(OLD(SU_V(i))) && OLD(SU_V(i))->m_refcnt.v == OLD(SU_V(i)->m_refcnt.v) - 1))))
+static nng_err sub0_ctx_unsubscribe(sub0_ctx *ctx, const void *buf, size_t sz)
+__CPROVER_requires(ctx == SU_C && VP_NO_LOCK_HELD && SUB_TOPICS_ARE(ctx, g_nt, g_t0, g_t1, g_t2))
+__CPROVER_requires(sz == 0 || __CPROVER_is_fresh(buf, sz))
+/* BOUND of this unit: ring position 0 (every ring position is covered by modules/lmq) */
+__CPROVER_requires(SUB_LMQ_PRE(SU_Q) && SU_Q->lmq_get == 0 && SU_Q->lmq_len <= SU_MAXQ && SUB_POLL_INV)
+/* ghost equations: which topic goes, and which queued messages still match what remains */
+__CPROVER_requires(g_r == vp_sub_find(g_nt, g_t0, g_t1, g_t2, (const uint8_t *) buf, sz))
+__CPROVER_requires(SU_MSG_PRE(0) && SU_MSG_PRE(1) && SU_MSG_PRE(2) && SU_MSG_PRE(3))
+__CPROVER_assigns(ctx->topics.ll_head, g_t0->node, g_t1->node, g_t2->node, SU_Q->lmq_put, SU_Q->lmq_get, SU_Q->lmq_len, __CPROVER_object_whole(SU_Q->lmq_msgs), VP_PROTO_GHOST_LIST, VP_SYNC_GHOSTS, g_free_calls)
+SU_MSG_ASSIGNS(0) SU_MSG_ASSIGNS(1) SU_MSG_ASSIGNS(2) SU_MSG_ASSIGNS(3)
+__CPROVER_frees(g_t0, g_t0->buf, g_t1, g_t1->buf, g_t2, g_t2->buf)
+__CPROVER_ensures(VP_NO_LOCK_HELD && LMQ_WF_SCALAR(SU_Q))
+/* no such subscription: NNG_ENOENT, nothing changes */
+__CPROVER_ensures(g_r >= g_nt ==> (RV == NNG_ENOENT && SUB_TOPICS_ARE(ctx, g_nt, g_t0, g_t1, g_t2) && SU_Q->lmq_len == SU_OLDLEN && SU_Q->lmq_get == OLD(SU_Q->lmq_get) && g_free_calls == OLD(g_free_calls) && g_pollr == OLD(g_pollr)))
+/* found: exactly that topic leaves the list (the others keep their order) and is released with its bytes */
+__CPROVER_ensures(g_r < g_nt ==> RV == NNG_OK)
+__CPROVER_ensures((g_r < g_nt && g_r == 0) ==> (__CPROVER_was_freed(g_t0) && (OLD(g_t0->len) == 0 || __CPROVER_was_freed(OLD(g_t0->buf))) && !__CPROVER_was_freed(g_t1) && !__CPROVER_was_freed(g_t2)))
+__CPROVER_ensures((g_r < g_nt && g_r == 1) ==> (__CPROVER_was_freed(g_t1) && (OLD(g_t1->len) == 0 || __CPROVER_was_freed(OLD(g_t1->buf))) && !__CPROVER_was_freed(g_t0) && !__CPROVER_was_freed(g_t2)))
+__CPROVER_ensures((g_r < g_nt && g_r == 2) ==> (__CPROVER_was_freed(g_t2) && (OLD(g_t2->len) == 0 || __CPROVER_was_freed(OLD(g_t2->buf))) && !__CPROVER_was_freed(g_t0) && !__CPROVER_was_freed(g_t1)))
+__CPROVER_ensures((g_r < g_nt && g_r == 0) ==> SUB_TOPICS_ARE(ctx, g_nt - 1, g_t1, g_t2, g_t2))
+__CPROVER_ensures((g_r < g_nt && g_r == 1) ==> SUB_TOPICS_ARE(ctx, g_nt - 1, g_t0, g_t2, g_t2))
+__CPROVER_ensures((g_r < g_nt && g_r == 2) ==> SUB_TOPICS_ARE(ctx, g_nt - 1, g_t0, g_t1, g_t1))
+/* the queue is the order-preserving filter of the old queue */
+__CPROVER_ensures(g_r < g_nt ==> (SU_Q->lmq_len == SU_RANK(SU_OLDLEN) && SU_MSG_POST(0) && SU_MSG_POST(1) && SU_MSG_POST(2) && SU_MSG_POST(3)))
+/* C15 (D8): the receive descriptor mirrors "socket queue non-empty" */
+__CPROVER_ensures(SUB_POLL_INV)
+;
+
+/* ---- C05: subscribe ---------------------------------------------------------
+ * an equal topic is not added twice; otherwise the byte string is appended as
+ * the last topic (private copy); allocation failure changes nothing. */
+#define SS_NEW ((sub0_topic *) ctx->topics.ll_head.ln_prev)
+static nng_err sub0_ctx_subscribe(sub0_ctx *ctx, const void *buf, size_t sz)
+__CPROVER_requires(ctx == SU_C && VP_NO_LOCK_HELD && g_nt <= 2 && SUB_TOPICS_ARE(ctx, g_nt, g_t0, g_t1, g_t2))
+__CPROVER_requires(sz == 0 || __CPROVER_is_fresh(buf, sz))
+__CPROVER_requires(g_r == vp_sub_find(g_nt, g_t0, g_t1, g_t2, (const uint8_t *) buf, sz))
+__CPROVER_requires((g_k < sz) ==> g_b == ((const uint8_t *) buf)[g_k])
+__CPROVER_assigns(ctx->topics.ll_head, g_t0->node, g_t1->node, g_t2->node, VP_SYNC_GHOSTS, g_free_calls, g_alloc_ok, g_alloc_fail)
+__CPROVER_ensures(VP_NO_LOCK_HELD && (RV == NNG_OK || RV == NNG_ENOMEM))
+/* already subscribed: success, nothing added */
+__CPROVER_ensures(g_r < g_nt ==> (RV == NNG_OK && SUB_TOPICS_ARE(ctx, g_nt, g_t0, g_t1, g_t2) && g_alloc_ok == OLD(g_alloc_ok)))
+/* out of memory: nothing changed, nothing leaked */
+__CPROVER_ensures(RV == NNG_ENOMEM ==> (g_r >= g_nt && g_alloc_fail > OLD(g_alloc_fail) && SUB_TOPICS_ARE(ctx, g_nt, g_t0, g_t1, g_t2) && g_alloc_ok - OLD(g_alloc_ok) == g_free_calls - OLD(g_free_calls)))
+/* new: appended LAST, the others keep their place; its bytes are a private copy of buf */
+__CPROVER_ensures((g_r >= g_nt && RV == NNG_OK) ==> (__CPROVER_is_fresh(SS_NEW, sizeof(struct sub0_topic)) && SS_NEW->len == sz && (sz == 0 || __CPROVER_is_fresh(SS_NEW->buf, sz))))
+__CPROVER_ensures((g_r >= g_nt && RV == NNG_OK && g_nt == 0) ==> SUB_TOPICS_ARE(ctx, 1, SS_NEW, SS_NEW, SS_NEW))
+__CPROVER_ensures((g_r >= g_nt && RV == NNG_OK && g_nt == 1) ==> SUB_TOPICS_ARE(ctx, 2, g_t0, SS_NEW, SS_NEW))
+__CPROVER_ensures((g_r >= g_nt && RV == NNG_OK && g_nt == 2) ==> SUB_TOPICS_ARE(ctx, 3, g_t0, g_t1, SS_NEW))
+__CPROVER_ensures((g_r >= g_nt && RV == NNG_OK && g_k < sz) ==> ((const uint8_t *) SS_NEW->buf)[g_k] == g_b)
 ;
 /* clang-format on */
 #endif
